@@ -95,6 +95,13 @@ pub fn run(ctx: &mut Ctx) {
             let id = 100 + nreq;
             expect_cli.push((id, text.clone()));
             reqs.push(call(id, "calculate_report", json!({"transactions": text})));
+            // non-empty ledgers without any trade (dividends only; an accumulation and a split only):
+            // the CLI reports them, so must the server
+            for (k, t) in ["2024-05-01 DIVIDEND AAA TOTAL 100 TAX 10\n2024-06-01 DIVIDEND BBB TOTAL 5 TAX 0\n", "2023-04-06 DIVIDEND AAA TOTAL 1.5 TAX 0\n", "2024-05-01 SPLIT AAA RATIO 2\n2024-05-02 DIVIDEND AAA TOTAL 7 TAX 1\n"].iter().enumerate() {
+                let id2 = id + 1 + k as u64;
+                expect_cli.push((id2, t.to_string()));
+                reqs.push(call(id2, "calculate_report", json!({"transactions": t})));
+            }
         }
         let key = format!("{:?}", reqs.iter().map(|v| v.to_string()).collect::<Vec<_>>());
         let mut texts: Vec<std::collections::BTreeMap<u64, String>> = Vec::new();
